@@ -2,6 +2,7 @@
 DataStreamProcessor.safe_process / raise_exception / _process / get_iterator, exceptions.ProcessorError,
 Flow._chain / _preprocess_chain, helpers.{row,rows,datapackage}_processor, conditional, iterable_loader.
 """
+from contracts.common import fn_named
 from contracts.common import (Item, mk_resource, mk_package, mk_package2, run_spec, ghost_row, expect_no_raise_or_same, _b)
 from contracts.streams import calls, effect_names
 
@@ -106,7 +107,7 @@ def sym_safe_process(vc):
                 elif mode == 'results':
                     ok = len(dr) == 1 and dr[0].src in (res, res.stream) and dr[0].how == 'list'
                 else:
-                    ok = len(dr) == 1 and isinstance(dr[0].src, GenObj) and dr[0].src.fn.name == 'schema_validator' and \
+                    ok = len(dr) == 1 and isinstance(dr[0].src, GenObj) and fn_named(dr[0].src, 'schema_validator') and \
                         dr[0].src.args[0] is res.attrs['res'] and dr[0].src.args[1] is res
                 check(it, 'each-resource-stream-fully-drained' + tag, ok)
                 if mode != 'process':
@@ -307,10 +308,10 @@ def sym_iterable_loader_errors(vc):
         except PyExc as pe:
             up = [e for e in it.path.events if e.kind == 'PullRaises']
             check(it, 'source-error-re-raised-unchanged', len(up) == 1 and pe.exc is up[0].exc)
-            check(it, 'source-error-recorded', il.attrs.get('exc') is pe.exc)
+            check(it, 'source-error-recorded', il.attrs['exc'] is pe.exc)
             cover(it, 'raise-reachable')
             return
-        check(it, 'no-error-recorded-on-clean-exhaustion', il.attrs.get('exc') is None)
+        check(it, 'no-error-recorded-on-clean-exhaustion', il.attrs['exc'] is None)
     vc.explore(fk, thunk, min_paths=2)
     fk2 = vc.under_contract('dataflows/helpers/iterable_loader.py', ['iterable_loader', 'process_datapackage'])
 
@@ -1032,14 +1033,14 @@ def sym_iterable_storage(vc):
             ft_calls.append((a, r))
             return r
         st.cls.methods['field_type'] = UFunc('field_type', field_type, True)
-        check(it, 'constructor-pulls-nothing', not takes(it.path.events) and st.attrs.get('iterable') is rows
-              and st.attrs.get('schema') is None)
+        check(it, 'constructor-pulls-nothing', not takes(it.path.events) and st.attrs['iterable'] is rows
+              and st.attrs['schema'] is None)
         mode = it.decide(2, lambda i: True)
         if mode == 0:
             given = PyDict({'fields': PyList([])})
             r = it.call(it.lib.getattr_(it, st, 'describe'), [None, given])
             check(it, 'given-descriptor-returned-untouched-nothing-pulled', r is given and not takes(it.path.events)
-                  and st.attrs.get('iterable') is rows)
+                  and st.attrs['iterable'] is rows)
             return
         n0 = len(it.path.events)
         r = it.call(it.lib.getattr_(it, st, 'describe'), [None])
@@ -1050,7 +1051,7 @@ def sym_iterable_storage(vc):
             check(it, 'take-bounded-by-a-constant-independent-of-the-data', isinstance(tk[0].n, int) and not isinstance(tk[0].n, bool)
                   and tk[0].src is rows)
             ln = tk[0].length
-            cur = st.attrs.get('iterable')
+            cur = st.attrs['iterable']
             if cur is rows:
                 # only legal when nothing was taken
                 check(it, 'iterable-kept-only-if-the-sample-is-empty', ln == 0)
@@ -1059,7 +1060,7 @@ def sym_iterable_storage(vc):
                     isinstance(cur.parts[0], lib.SymList) and not cur.parts[0].items and \
                     getattr(cur.parts[0].prefix, 'taken_from', None) is rows and cur.parts[1] is rows
                 check(it, 'sample-rechained-first-then-the-rest', ok)
-            sch = st.attrs.get('schema')
+            sch = st.attrs['schema']
             check(it, 'schema-cached-and-returned', sch is r and isinstance(sch, PyDict) and 'fields' in sch.d)
             f = sch.d.get('fields') if isinstance(sch, PyDict) else None
             if isinstance(f, lib.CompSeq):
@@ -1073,14 +1074,14 @@ def sym_iterable_storage(vc):
                 check(it, 'no-fields-only-for-an-empty-sample', z3.And(ln == 0, z3.BoolVal(isinstance(f, PyList) and not f.items)))
         elif raised:
             # upstream failed while sampling: handle_iterable records it and process_datapackage re-raises (C04 contract)
-            sch = st.attrs.get('schema')
+            sch = st.attrs['schema']
             check(it, 'failed-sampling-leaves-an-empty-schema', isinstance(sch, PyDict) and isinstance(sch.d.get('fields'), PyList)
                   and not sch.d['fields'].items)
         # second describe: cached
         n1 = len(it.path.events)
         r2 = it.call(it.lib.getattr_(it, st, 'describe'), [None])
         check(it, 'second-describe-pulls-nothing-and-returns-the-cached-schema', not takes(it.path.events[n1:]) and r2 is r)
-        cur = st.attrs.get('iterable')
+        cur = st.attrs['iterable']
         r3 = it.call(it.lib.getattr_(it, st, 'iter'), [None])
         check(it, 'iter-hands-out-the-rechained-iterable-itself', r3 is cur and not takes(it.path.events[n1:]))
         cover(it, 'reachable')
